@@ -410,10 +410,10 @@ def _plans(tier, rng):
         out.append(("n=3: repeat-free Net(3,4,3), all 3 trees", complete_scope(3, 4, 3), True, big, "complete; 4 size assignments"))
         out.append(("n=4: repeat-free Net(4,4,2), all 15 trees", complete_scope(4, 4, 2), True, big, "complete; 4 size assignments"))
         out.append(("n=4: repeat-free Net(4,4,3), all 15 trees", complete_scope(4, 4, 3), True, {"sizes": 1, "combos": "all"}, "complete; 1 size assignment"))
-        out.append(("n=5: sample over 5 symbols rank<=3, all 105 trees", sampled_scope(5, 5, 3, 8000, rng), False, allc, "seeded sample of 8000"))
-        out.append(("n=6: sample over 6 symbols rank<=3, all 945 trees", sampled_scope(6, 6, 3, 4000, rng), False, allc, "seeded sample of 4000"))
-        out.append(("n=7: sample over 7 symbols rank<=3, all 10395 trees", sampled_scope(7, 7, 3, 600, rng), False, {"sizes": 1, "combos": "all"},
-                    "seeded sample of 600"))
+        out.append(("n=5: sample over 5 symbols rank<=3, all 105 trees", sampled_scope(5, 5, 3, 15000, rng), False, allc, "seeded sample of 15000"))
+        out.append(("n=6: sample over 6 symbols rank<=3, all 945 trees", sampled_scope(6, 6, 3, 8000, rng), False, allc, "seeded sample of 8000"))
+        out.append(("n=7: sample over 7 symbols rank<=3, all 10395 trees", sampled_scope(7, 7, 3, 1500, rng), False, {"sizes": 1, "combos": "all"},
+                    "seeded sample of 1500"))
     return out
 
 
